@@ -505,7 +505,8 @@ func (dp *DPoVP) LoadTopCandidates(blockHash common.Hash) types.DeputyNodes {
 // LoadRefundCandidates get the address list of candidates who need to refund
 func (dp *DPoVP) LoadRefundCandidates(height uint32) ([]common.Address, error) {
 	result := make([]common.Address, 0)
-	addrList, err := dp.db.GetAllCandidates()
+	// the candidates of the parent block's fork. The list must not depend on which blocks are stable on this node
+	addrList, err := dp.db.GetAllCandidatesByBlock(dp.am.BaseBlockHash())
 	if err != nil {
 		log.Errorf("Load all candidates fail: %v", err)
 		return nil, err
